@@ -72,6 +72,12 @@ func (R *Repository) AddCRL(crlLocations *core.CRLLocations, chains *core.Certif
 		if R.isEntryLoaded(entry) == false {
 			return crlAdded, R.loadActively(entry, chains, crlLocations)
 		}
+	} else if crlAdded {
+		//the crl is loaded in background: remember where it comes from, otherwise it can never be refreshed
+		err := R.storeLocations(entry, crlLocations)
+		if err != nil {
+			return crlAdded, err
+		}
 	}
 
 	entry.entryLock.RLock()
@@ -83,6 +89,12 @@ func (R *Repository) AddCRL(crlLocations *core.CRLLocations, chains *core.Certif
 		R.tryUpdateSignatureCertFromChain(entry, chains)
 	}
 	return crlAdded, nil
+}
+
+func (R *Repository) storeLocations(entry *Entry, crlLocations *core.CRLLocations) error {
+	entry.entryLock.Lock()
+	defer entry.entryLock.Unlock()
+	return entry.CRLStore.UpdateCRLLocations(crlLocations)
 }
 
 func (R *Repository) isEntryLoaded(entry *Entry) bool {
@@ -588,6 +600,10 @@ func (R *Repository) UpdateCRL(crlLocations *core.CRLLocations, chains *core.Cer
 	}
 	entry := R.getEntrySync(identifier)
 	if entry != nil {
+		if R.isEntryLoaded(entry) == false {
+			//the crl was added but not loaded yet (background fetch mode): there is nothing to update, load it
+			return R.loadActively(entry, chains, crlLocations)
+		}
 		err := R.updateCrlEntry(entry, chains)
 		if err != nil {
 			return err
